@@ -124,9 +124,13 @@ func VHarness_C20_MemberValidation() {
 // ---------------------------------------------------------------------------
 // whole ImportSnapshot over the in-memory FS with a recording log store
 
-type vLogDBFactory struct{ db *vImportLogDB }
+type vLogDBFactory struct {
+	db         *vImportLogDB
+	dirs, wals []string
+}
 
-func (f *vLogDBFactory) Create(config.NodeHostConfig, config.LogDBCallback, []string, []string) (raftio.ILogDB, error) {
+func (f *vLogDBFactory) Create(c config.NodeHostConfig, cb config.LogDBCallback, dirs []string, wals []string) (raftio.ILogDB, error) {
+	f.dirs, f.wals = dirs, wals
 	return f.db, nil
 }
 func (f *vLogDBFactory) Name() string { return "vlogdb" }
@@ -193,7 +197,7 @@ func vExport(fs vfs.IFS, dir string, old pb.Membership, payload []byte) pb.Snaps
 // image and records exactly the given membership in the log store; a refused
 // request (bad member list, importing replica not listed at its address,
 // checksum mismatch, missing file) leaves existing snapshot data untouched.
-//vcheck: reach=imported,refused,existing-kept,done workers=8
+//vcheck: reach=imported,refused,existing-kept,separate-wal,done workers=8
 func VHarness_C20_ImportEndToEnd() {
 	fs := vfs.NewMemFS()
 	old := pb.Membership{Addresses: map[uint64]string{1: "a1", 2: "a2"}, NonVotings: map[uint64]string{}, Witnesses: map[uint64]string{3: "a3"}, Removed: map[uint64]bool{4: true}}
@@ -201,7 +205,11 @@ func VHarness_C20_ImportEndToEnd() {
 	db := &vImportLogDB{}
 	nh := config.NodeHostConfig{NodeHostDir: "/nh", RaftAddress: "a1", RTTMillisecond: 100, DeploymentID: 9}
 	nh.Expert.FS = fs
-	nh.Expert.LogDBFactory = &vLogDBFactory{db: db}
+	fac := &vLogDBFactory{db: db}
+	nh.Expert.LogDBFactory = fac
+	if vBool("separateWALDir") {
+		nh.WALDir = "/wal"
+	}
 	members := map[uint64]string{1: "a1"}
 	switch vChoose("request", 5) {
 	case 0: // valid: keep replica 1, drop the others
@@ -243,6 +251,17 @@ func VHarness_C20_ImportEndToEnd() {
 		vReach("imported")
 		vAssert(err == nil, "valid-import-succeeds")
 		vAssert(len(db.imported) == 1 && db.replica[0] == 1, "log-store-import-called-once")
+		// the record went into the log store the restarted NodeHost opens
+		env2, eerr := server.NewEnv(nh, fs)
+		vAssert(eerr == nil, "env")
+		if eerr == nil {
+			d, w := env2.GetLogDBDirs(nh.DeploymentID)
+			vAssert(len(fac.dirs) == 1 && len(fac.wals) == 1 && fac.dirs[0] == d && fac.wals[0] == w, "imported-into-the-log-store-directories-the-nodehost-opens")
+			if nh.WALDir != "" {
+				vAssert(d != w, "separate-wal-dir-in-effect")
+				vReach("separate-wal")
+			}
+		}
 		ss := db.imported[0]
 		vAssert(ss.Imported && ss.Index == 100 && len(ss.Membership.Addresses) == 1 && ss.Membership.Addresses[1] == "a1", "imported-record-membership")
 		vAssert(ss.Membership.Removed[2] && ss.Membership.Removed[3] && ss.Membership.Removed[4], "imported-record-removed")
